@@ -191,7 +191,7 @@ example :
     (parseVar (serializeVar [] v1)).map (fun c => (c.evented, c.min, c.max, c.default))
         = some (true, some "7".toList, none, some "9".toList)
     ∧ varMatches [] v1 (viewOf [] (clientVarOf [] v1)) = true
-    ∧ (parseVar (serializeVar [] v2)).map (·.allowed) = some (some ["True".toList])
+    ∧ (parseVar (serializeVar [] v2)).map (·.allowed) = some (some ["1".toList])
     ∧ varMatches [] v2 (viewOf [] (clientVarOf [] v2)) = true := by
   decide +kernel
 
